@@ -1069,7 +1069,8 @@ fn parsing_canonical_form(schema: &JsonValue, defined_names: &mut HashSet<String
         JsonValue::Object(map) => pcf_map(map, defined_names),
         JsonValue::String(s) => pcf_string(s),
         JsonValue::Array(v) => pcf_array(v, defined_names),
-        json => panic!("got invalid JSON value for canonical form of schema: {json}"),
+        // a custom attribute that is named like a schema key ("symbols": null, "items": 1, ...)
+        json => json.to_string(),
     }
 }
 
